@@ -5,13 +5,18 @@
 (* (set of failed clauses) is printed as one JSON line when non-empty.     *)
 (* Acceptance = every line of the trace file was consumed.                 *)
 (***************************************************************************)
-EXTENDS JudgeTx, Json, IOUtils
+EXTENDS JudgeTx, JudgeSat, Json, IOUtils
 
 Tr == ndJsonDeserialize(IOEnv.TRACE_FILE)
 
 JudgeEvent(e) ==
   CASE e.kind = "limit_fanin"  -> Judge_limit_fanin(e)
     [] e.kind = "limit_fanout" -> Judge_limit_fanout(e)
+    [] e.kind = "cnf"          -> Judge_cnf(e)
+    [] e.kind = "solve"        -> Judge_solve(e)
+    [] e.kind = "model_count"  -> Judge_model_count(e)
+    [] e.kind = "signal_probability" -> Judge_signal_probability(e)
+    [] e.kind = "dimacs"       -> Judge_dimacs(e)
     [] OTHER -> {"MACHINERY:unknown_kind"}
 
 VARIABLE l
